@@ -695,6 +695,15 @@ func init() {
 			} {
 				f := c.P.Func("url", t.recv, t.fn)
 				key := "component/" + t.fn
+				rt := t.recv
+				if f == nil && t.fn == "parseOpaqueHost" {
+					// under another name or on another type, the opaque-host parser is still the one function that reports
+					// a forbidden host code point
+					f = soleReporterOf(c, "HostInvalidCodePoint")
+					if f != nil {
+						rt = namedOf(recvType(f))
+					}
+				}
 				if f == nil {
 					s.Unknown(key, "-", "not found", t.props...)
 					continue
@@ -702,7 +711,6 @@ func init() {
 				got := map[string]bool{}
 				var pos token.Pos
 				// the encoder calls of the function, looking through unexported helpers of the same type
-				rt := t.recv
 				for _, x := range expandCalls(c, f, func(g *ssa.Function) bool {
 					return c.P.InModule(g) && namedOf(recvType(g)) == rt && g.Object() != nil && !g.Object().Exported() && g.Name() != t.callee
 				}, 2) {
@@ -839,6 +847,21 @@ func onlyUnderTrigger(c *Ctx, f *ssa.Function, ld *ssa.UnOp, trig func(b *ssa.Ba
 		}
 	}
 	return n > 0
+}
+
+// soleReporterOf: the one function of the module with a call of an error handler for the named error type.
+func soleReporterOf(c *Ctx, typeName string) *ssa.Function {
+	var found *ssa.Function
+	for _, st := range buildErrModel(c).Sites {
+		if st.TypeName != typeName {
+			continue
+		}
+		if found != nil && found != st.Caller {
+			return nil
+		}
+		found = st.Caller
+	}
+	return found
 }
 
 func keysOf(m map[string]bool) []string {
